@@ -199,6 +199,8 @@ structure World where
   rows : List (Nat × List Row) := []     -- table number ↦ rows
   seen : List (Nat × Key) := []          -- keys that ever existed (their next insert carries a sentinel)
   subs : List SubSt := []
+  /-- `ro1`: the peer's first transaction is still on its way: (tables after both, its change list) -/
+  pending : Option (List (Nat × List Row) × List Chg) := none
 
 def World.tbl (w : World) (t : Nat) : List Row := ((w.rows.find? (·.1 = t)).map (·.2)).getD []
 def World.db (w : World) : Db := fun t => w.tbl t
@@ -268,6 +270,24 @@ def deliver (w : World) (l : Log) : World × List Nat :=
     ({ s with buf := buf }, candCount cs)
   ({ w with subs := res.map (·.1) }, res.map (·.2))
 
+/-- what the node holds after it merged only the LATER of two peer transactions: every cell the
+later one wrote has its value, the other cells keep the node's value (NULL for a row the node did
+not have), a row the later one deleted is gone -/
+def patchRows (vis : World) (after : World) (l2 : Log) : World :=
+  l2.foldl (fun (w : World) (c : Chg) =>
+    let t := tdefById c.tbl
+    match (after.tbl c.tbl).find? (fun r => keyOf t.nk r = c.key) with
+    | none => w.setTbl c.tbl ((w.tbl c.tbl).filter fun r => keyOf t.nk r ≠ c.key)
+    | some r2 =>
+      let base := ((w.tbl c.tbl).find? (fun r => keyOf t.nk r = c.key)).getD (c.key ++ (List.replicate (t.cols.length - t.nk) Val.null))
+      let row := (List.range t.cols.length).map fun i =>
+        if i < t.nk then r2.getD i .null
+        else if l2.any (fun x => x.tbl = c.tbl ∧ x.key = c.key ∧ x.cid = some i) then r2.getD i .null
+        else base.getD i .null
+      if (w.tbl c.tbl).any (fun r => keyOf t.nk r = c.key) then
+        w.setTbl c.tbl ((w.tbl c.tbl).map fun r => if keyOf t.nk r = c.key then row else r)
+      else w.setTbl c.tbl (w.tbl c.tbl ++ [row])) vis
+
 def insertSorted (s : String) : List String → List String
   | [] => [s]
   | x :: xs => if s < x then s :: x :: xs else x :: insertSorted s xs
@@ -308,7 +328,32 @@ def step (w : World) (toks : List String) : Option (World × String) :=
       let list := evs.map fun e => (match e.kind with | .insert => "I" | .update => "U" | .delete => "D") ++ ":" ++ showCells e.cells
       pure (w', s!"n={evs.length} ids={a.id}-{b.id} " ++ showSorted list)
     | _, _ => pure (w', "n=0 ids=- -")
+  | ["ro2"] =>
+    match w.pending with
+    | none => none
+    | some (rows, l1) =>
+      let w1 := { w with rows := rows, pending := none }
+      if l1.isEmpty then pure (w1, s!"ok ch=- m={showNats (w.subs.map fun _ => 0)}") else
+      let (w2, ms) := deliver w1 l1
+      pure (w2, s!"ok ch={showLog l1} m={showNats ms}")
+  | ["ro1", txs] =>
+    if w.pending.isSome then none else do
+    let parsed ← (txs.splitOn "|").mapM parseTx
+    match parsed with
+    | [tx1, tx2] =>
+      match applyTx w tx1 with
+      | none => pure (w, "err constraint")
+      | some (w1, l1) =>
+        match applyTx w1 tx2 with
+        | none => none
+        | some (w2, l2) =>
+          let vis := { patchRows w w2 l2 with seen := w2.seen, pending := some (w2.rows, l1) }
+          if l2.isEmpty then pure (vis, s!"ok ch=- m={showNats (w.subs.map fun _ => 0)}") else
+          let (vis', ms) := deliver vis l2
+          pure (vis', s!"ok ch={showLog l2} m={showNats ms}")
+    | _ => none
   | [m, txs] =>
+    if w.pending.isSome then none else
     if m ≠ "w" ∧ m ≠ "r" ∧ m ≠ "rp" ∧ m ≠ "rb" then none else do
     let parsed ← (txs.splitOn "|").mapM parseTx
     if m ≠ "rb" ∧ parsed.length ≠ 1 then none else
